@@ -477,6 +477,10 @@ impl Decl {
     }
 
     /// the concrete newtype as named in the glue
+    pub fn generic_default_history(&self) -> bool {
+        self.generic == Generic::T && self.default.is_some() && self.has(Tr::Default)
+    }
+
     pub fn tt(&self) -> String {
         match self.generic {
             Generic::None => self.type_name.clone(),
@@ -614,6 +618,7 @@ impl Decl {
     pub fn struct_text(&self) -> String {
         match self.generic {
             Generic::None => format!("pub struct {}({});", self.type_name, self.inner.ty()),
+            Generic::T if self.default.is_some() => format!("pub struct {}<T: fpoint::HasX + Default>(T);", self.type_name),
             Generic::T => format!("pub struct {}<T: fpoint::HasX>(T);", self.type_name),
             Generic::VecT => format!("pub struct {}<T: Ord + Clone>(Vec<T>);", self.type_name),
         }
@@ -785,6 +790,22 @@ impl Decl {
         }
         w!(o, "}};");
         // const evaluation
+        if self.generic_default_history() {
+            // Default through two instantiations of one generic declaration, interleaved: the first call is
+            // at the instantiation whose default is valid
+            let n = &self.type_name;
+            w!(o, "fn default_history() -> Vec<(String, bool, Option<bool>)> {{");
+            w!(o, "    let mut out = Vec::new();");
+            w!(o, "    macro_rules! step {{ ($ty:ty, $label:expr) => {{{{");
+            w!(o, "        let raw: $ty = <$ty as Default>::default();");
+            w!(o, "        let exp = {n}::<$ty>::try_new(raw).ok().map(|v| v.into_inner());");
+            w!(o, "        let got = vlib::drive::no_panic(|| <{n}<$ty> as Default>::default().into_inner());");
+            w!(o, "        out.push(($label.to_string(), exp.is_some(), got.ok().map(|g| exp.as_ref() == Some(&g))));");
+            w!(o, "    }}}} }}");
+            w!(o, "    step!(fpoint::PosPoint, \"PosPoint\"); step!(Point, \"Point\"); step!(fpoint::PosPoint, \"PosPoint\"); step!(Point, \"Point\");");
+            w!(o, "    out");
+            w!(o, "}}");
+        }
         if !self.const_evals.is_empty() {
             for (i, lit) in self.const_evals.iter().enumerate() {
                 if v {
@@ -843,6 +864,9 @@ impl Decl {
         }
         if self.has(Tr::Default) && self.default.is_some() {
             w!(o, "    default: vlib::g_default!(),");
+        }
+        if self.generic_default_history() {
+            w!(o, "    default_history: Some(default_history),");
         }
         if self.has(Tr::Deserialize) {
             w!(o, "    de: vlib::g_de!(),");
